@@ -31,6 +31,16 @@ class Oracle(simcheck.BaseOracle):
         self.client_at = {}   # id(order) -> client it was placed with (a later refused request may overwrite order.client, see C02)
         self.n = 0
 
+    def _note_new(self, market):
+        # replacement orders enter the blotter inside the execution of a replace package (no place action): their client is
+        # the one they carry when first seen there, before a later (refused) request can overwrite order.client
+        if market is not None:
+            for o in market.blotter:
+                self.client_at.setdefault(id(o), o.client)
+
+    def before_action(self, run, sidx, market, action, order, state):
+        self._note_new(market)
+
     def on_action(self, run, sidx, market, a, result, order):
         if a[0] == "place" and result == "True" and order is not None:
             self.shadow.setdefault(market.market_id, []).append(order)
@@ -122,6 +132,7 @@ class Oracle(simcheck.BaseOracle):
                 self.add("has-live-orders", where)
 
     def in_callback(self, run, strategy, market, market_book):
+        self._note_new(market)
         self.check(run, "in callback")
 
     def after_update(self, run, mb):
